@@ -458,10 +458,19 @@ fn main() {
     let distinct = Distinct::default();
     let cx = Ctx { run: &run, distinct: &distinct };
 
-    let loom = run_loom(&run, "C14", run.tier.pick(35, 900));
-    if !loom.incomplete.is_empty() {
-        run.cap_hit(format!("loom bodies stopped by their wall-clock cap: {:?}", loom.incomplete));
-    }
+    // Part 2 (loom bodies in child processes) runs beside Part 1
+    let loom_slot: std::sync::Mutex<Option<loom_child::LoomOut>> = std::sync::Mutex::new(None);
+    let (coverage, assumptions) = std::thread::scope(|sc| {
+        sc.spawn(|| {
+            *loom_slot.lock().unwrap() = Some(run_loom(&run, "C14", run.tier.pick(40, 900)));
+        });
+        part1(&run, &cx, &loom_slot)
+    });
+    run.finish(coverage, assumptions);
+}
+
+fn part1(run: &Run, cx: &Ctx, loom_slot: &std::sync::Mutex<Option<loom_child::LoomOut>>) -> (serde_json::Map<String, Value>, Vec<String>) {
+    let distinct = cx.distinct;
 
     // ---- family T first (sleeps; cheap in CPU)
     let timed_cfgs = [
@@ -530,6 +539,16 @@ fn main() {
             run.machinery_error("not even depth 1 completed");
         }
     }
+    // wait for the loom driver (its bodies have their own wall-clock cap)
+    let loom = loop {
+        if let Some(l) = loom_slot.lock().unwrap().take() {
+            break l;
+        }
+        std::thread::sleep(Duration::from_millis(20));
+    };
+    if !loom.incomplete.is_empty() {
+        run.cap_hit(format!("loom bodies stopped by their wall-clock cap: {:?}", loom.incomplete));
+    }
     let states: u64 = all.iter().map(|(_, s)| s.states).sum();
     let transitions: u64 = all.iter().map(|(_, s)| s.transitions).sum();
     let mut samples: Vec<Value> = Vec::new();
@@ -562,7 +581,7 @@ fn main() {
                 "timed_histories": timed_done, "timed_max_len": run.tier.pick(3, 5), "loom_schedules": loom.states, "loom_bodies": loom.bodies}),
         ),
     ]);
-    run.finish(
+    (
         coverage,
         vec![
             "every transition is a replay on a real limiter; reference = admissions charged per bucket, an attempt consumes global -> /64 -> /48 (or /24) resp. global -> key and stops at the first refusal".into(),
@@ -573,5 +592,5 @@ fn main() {
             "LRU eviction at 100 000 keys and window roll-over after 1 h / 1 min are outside the horizon; the 400 ms-window timed configuration covers roll-over of the fixed window".into(),
             "loom part: Engine::global Mutex, Engine::keyed RwLock (parking_lot -> shim over loom::sync::RwLock) and Arc are loom objects in a re-bound copy of the working tree's rate_limit.rs; Instant::now() is the real clock".into(),
         ],
-    );
+    )
 }
